@@ -142,7 +142,10 @@ impl<M: MemBuilder> AnyVecRaw<M> {
         where M::Mem: MemResizable
     {
         let new_len = cmp::max(self.len, min_capacity);
-        self.mem.resize(new_len);
+        // Never grow: if the capacity is already below the bound - this is a no-op.
+        if new_len < self.capacity(){
+            self.mem.resize(new_len);
+        }
     }
 
     #[inline]
